@@ -389,3 +389,37 @@ Proof.
   repeat split; try (vm_compute; reflexivity).
   apply frame_rows_ok; [discriminate | vm_compute; reflexivity].
 Qed.
+
+(* non-vacuity of the per-kind theorems: one concrete column per theorem, premises and conclusion by computation *)
+Example C17_csv_kinds_nonvacuous :
+  (let c := [TInt (- 2 ^ 63); TInt 0; TInt (2 ^ 63 - 1)]%Z in
+   forallb int_cell c = true /\ existsb is_TNA c = false /\ forallb (cell_in i64_min i64_max) c = true /\
+   decide (map render c) = Some (DInt64, [RInt (- 2 ^ 63); RInt 0; RInt (2 ^ 63 - 1)]%Z)) /\
+  (let c := [TInt (2 ^ 64 - 1); TInt 0]%Z in
+   forallb int_cell c = true /\ existsb is_TNA c = false /\ forallb (cell_in 0 u64_max) c = true /\
+   forallb (cell_in i64_min i64_max) c = false /\
+   decide (map render c) = Some (DUInt64, [RInt (2 ^ 64 - 1); RInt 0]%Z)) /\
+  (let c := [TInt (2 ^ 53 + 1); TNA; TInt (- 2 ^ 53)]%Z in
+   forallb int_cell c = true /\ existsb is_TNA c = true /\ forallb (cell_in i64_min i64_max) c = true /\
+   decide (map render c) = Some (DFloat64, [RFint (2 ^ 53); RNaN; RFint (- 2 ^ 53)]%Z)) /\
+  (let c := [TInt (2 ^ 63); TNA]%Z in
+   forallb int_cell c = true /\ existsb is_TNA c = true /\ forallb (cell_in 0 u64_max) c = true /\
+   forallb (cell_in i64_min i64_max) c = false /\
+   decide (map render c) = Some (DStr, [RStr "9223372036854775808"; RStr ""])) /\
+  (let c := [TBool true; TNA; TBool false] in
+   forallb bool_cell c = true /\ forallb is_TNA c = false /\
+   decide (map render c) = Some (DObject, [RBool true; RNaN; RBool false])) /\
+  (let c := [TFloat "0.1"; TNA; TFloat "1e+300"; TFloat "-inf"; TFloat "3.4028235e+38"] in
+   forallb float_cell c = true /\ forallb is_TNA c = false /\ forallb float_cell_ok c = true /\
+   decide (map render c) = Some (DFloat64, [RFlit "0.1"; RNaN; RFlit "1e+300"; RFlit "-inf"; RFlit "3.4028235e+38"])) /\
+  (let c := [TStr "007"; TStr "x,y"; TNA; TStr "True"] in
+   forallb str_cell c = true /\ str_safe c = true /\
+   decide (map render c) = Some (DStr, [RStr "007"; RStr "x,y"; RNaN; RStr "True"])) /\
+  (let c := [TNA; TNA] in
+   forallb is_TNA c = true /\ decide (map render c) = Some (DFloat64, [RNaN; RNaN])) /\
+  unquote (quote_min "a,""b""") = "a,""b"""%string /\
+  tokenize (print_rows [[""; "id"; "x,y"]; ["0"; "7"; "q""t"]]%string) = Some [[""; "id"; "x,y"]; ["0"; "7"; "q""t"]]%string /\
+  Forall row_ok [[""; "id"; "x,y"]; ["0"; "7"; "q""t"]]%string.
+Proof.
+  repeat split; try (vm_compute; reflexivity); repeat constructor.
+Qed.
